@@ -646,8 +646,18 @@ def _run_impl(scn):
 
     loop = TLoop()
     loop.rec = rec
+    livelock = None
     try:
         vtime.run(main, world=world, loop=loop)
+    except RuntimeError as err:
+        if 'quiescent' not in str(err):
+            raise
+        # timers keep being armed for the very same instant: virtual time cannot advance
+        livelock = rec.loop.now_us
+        lines.append(f'fsmtimer adv {livelock}')
+        trace.append(f'livelock at {livelock}: {len(rec.log)} log entries, last {rec.log[-3:]}'[:300])
+        steps.append({'line': f'adv {livelock}', 'res': 'livelock', 'log': [], 'snap': None, 'phase': 'run',
+                      'livelock': livelock, 'nlog': len(rec.log)})
     finally:
         vtime.uninstall()
     alllog = [e for s in steps for e in s['log']]
@@ -1110,6 +1120,11 @@ def oracle(scn, res):
     def bad(clause, what, **sig):
         out.append({'clause': clause, 'what': what, 'sig': sig})
 
+    for st in res['steps']:
+        if st['res'] == 'livelock':
+            return [{'clause': 'fires_once_on_time', 'what': f"the loop never becomes quiescent at {st['livelock']} us: "
+                     f"timers are armed and fire at the same instant without end ({st['nlog']} log entries); a zero "
+                     'duration must generate the timed event immediately (chained transition, chain limit)', 'sig': {}}]
     ref = Ref(scn)
     armed = {}          # handle id -> (when, tev, visit index at arming, time of arming)
     fired = set()
